@@ -6,8 +6,14 @@
 //	    all 256 first bytes x lengths x trailing data, replies counted before the reply to a
 //	    well-formed sentinel sent from the same socket.
 //
-// NTS-valid trailing data (a request that authenticates) is out of this command's scope
-// (C10/C11); the SCION listener is C13's.
+//	(c) socket level, histories: datagrams from ONE client socket (one listener goroutine, in
+//	    order) mixing plain NTP requests, authentic NTS requests of several associations (built
+//	    with the real ntske/nts code), junk-cookie and malformed datagrams (op ip.hist): every
+//	    valid request, plain or NTS, is answered exactly once, an NTS request with a reply that
+//	    authenticates under its own association's keys, whatever the socket saw before.
+//
+// The content of the NTS branch (cookie budget, key rotation) is C10/C11's; the SCION listener
+// is C13's.
 package main
 
 import (
